@@ -206,6 +206,13 @@ func (p *Path) prim(fn *ssa.Function, args []Value) Value {
 			m.Observe = true
 		}
 		return nil
+	case "vRepeat":
+		return int64(1)
+	case "vUnobserveMap":
+		if m, ok := args[0].(*Map); ok && m != nil {
+			m.Observe = false
+		}
+		return nil
 	case "vRandTrace":
 		return Slice{A: append([]Value(nil), p.randTrace...)}
 	case "vPred":
